@@ -389,6 +389,62 @@ func segmentation(rep *kit.Report, seeds [][]byte) {
 	rep.Sample(map[string]interface{}{"kind": "segmentation", "example": "ClientHello record delivered as reads of 5 + 1 + rest bytes; then a second connection"})
 }
 
+// largeHellos: hellos of about 2, 5 and 16 KB (a padding extension added to a crypto/tls hello; post-quantum key shares make
+// real ones this large) under every 1-cut on a grid, every delivery in equal reads of 17 sizes, and a long first read followed by
+// the rest: what is recorded equals what is recorded for the unsplit record.
+func largeHellos(rep *kit.Report, seeds [][]byte) {
+	cfg := &tls.Config{}
+	base := seeds[len(seeds)-1]
+	off, ok := extOffset(base)
+	if !ok {
+		rep.Broken("large hellos: no extension block in the last seed")
+	}
+	for _, size := range []int{2000, 4900, 16000} {
+		h := withExt(base, off, 21, make([]byte, size-len(base)), true)
+		rec := record(h)
+		ref := httpserver.VerifRecordHellos([][][]byte{{rec}}, cfg)[0]
+		if ref == "" {
+			rep.Broken("unsplit large hello (%d bytes) was not recorded", len(rec))
+		}
+		check := func(chunks [][]byte) {
+			rep.Eval(1)
+			var got []string
+			_, pv := safely(func() string { got = httpserver.VerifRecordHellos([][][]byte{chunks}, cfg); return "" })
+			var lens []int
+			for _, c := range chunks {
+				lens = append(lens, len(c))
+			}
+			if len(lens) > 6 {
+				lens = append(lens[:5], -len(chunks))
+			}
+			if pv != nil {
+				rep.Violation("C19/segmentation/panic", fmt.Sprint(pv), c19case{"large hello", fmt.Sprintf("%d bytes, read sizes %v", len(rec), lens), fmt.Sprint(pv), ""})
+			} else if got[0] != ref {
+				rep.Violation("C19/segmentation/recorded-hello-depends-on-read-boundaries/large", fmt.Sprintf("hello of %d bytes delivered in reads of %v (negative: number of equal reads) recorded differently", len(rec), lens), c19case{"large hello", fmt.Sprintf("%d bytes, read sizes %v", len(rec), lens), trunc(got[0]), trunc(ref)})
+			}
+		}
+		step := 7
+		if rep.Thorough() {
+			step = 1
+		}
+		for a := 1; a < len(rec); a += step {
+			check([][]byte{rec[:a], rec[a:]})
+		}
+		for _, n := range []int{1, 2, 3, 5, 16, 100, 512, 1000, 1024, 1460, 2048, 4095, 4096, 4097, 4500, 8192, 16383} {
+			var chunks [][]byte
+			for a := 0; a < len(rec); a += n {
+				b := a + n
+				if b > len(rec) {
+					b = len(rec)
+				}
+				chunks = append(chunks, rec[a:b])
+			}
+			check(chunks)
+		}
+		rep.Class(fmt.Sprintf("segmentation/large-hello/%d", size))
+	}
+}
+
 func trunc(s string) string {
 	if len(s) > 160 {
 		return s[:160] + "..."
@@ -572,6 +628,29 @@ func otherParsers(rep *kit.Report, base string) {
 		}
 	}
 	streams = append(streams, frec(6, []byte("no blank line")), frec(6, []byte(":\r\n\r\n")), frec(6, []byte("\r\n\r\n")), frec(6, []byte("A: b\r\n c\r\n\r\n")), frec(7, []byte("only stderr")), frec(11, []byte("unknown type")), append(frec(6, []byte("Content-Length: 99999\r\n\r\nshort")), frec(3, make([]byte, 8))...), append(frec(6, []byte("Transfer-Encoding: chunked\r\n\r\nzz\r\n")), frec(3, make([]byte, 8))...))
+	// record sizes at the extremes of the two length fields: content {0, 1, 8, 65500, 65501, 65528, 65535} x padding {0, 1, 7, 8, 255},
+	// as the first stdout record (it carries the header block) and as a later one
+	for _, cl := range []int{0, 1, 8, 65500, 65501, 65528, 65535} {
+		for _, pad := range []int{0, 1, 7, 8, 255} {
+			for _, first := range []bool{true, false} {
+				content := bytes.Repeat([]byte("x"), cl)
+				hdr := []byte("Content-Type: text/plain\r\n\r\n")
+				var st []byte
+				if first {
+					if cl >= len(hdr) {
+						copy(content, hdr)
+					}
+				} else {
+					st = frec(6, hdr)
+				}
+				r := frec(6, content)
+				r[6] = byte(pad)
+				r = append(r, make([]byte, pad)...)
+				st = append(append(append(st, r...), frec(6, nil)...), frec(3, make([]byte, 8))...)
+				streams = append(streams, st)
+			}
+		}
+	}
 	for _, s := range streams {
 		s := s
 		fcgiOut.Store(&s)
@@ -591,7 +670,7 @@ func otherParsers(rep *kit.Report, base string) {
 
 func main() {
 	rep := kit.NewReport("C19", "exploration",
-		"ClientHello: captured browser hellos of the repository's fixtures + 6 crypto/tls hellos, each under every truncation, every byte x 5 values, every 16-bit field of the extension block x 6 deltas, supported-groups replaced by every list of <=6 (5) over 7 values, each parsed, run through every heuristic and through the MITM handler with 176 User-Agent strings; segmentation: every 1-cut (and a grid of 2-cuts) delivery of each hello record through the real listener/crypto/tls read path, plus connection sequences, recorded info compared with the unsplit one; Link headers: every string of length <=5 over 8 symbols through the push middleware; hostile header/cookie/query/path values through 25 placeholders, basicauth and matchers; mutated FastCGI and HTTP backend response streams; distinct_nontrivial = outcome classes")
+		"ClientHello: captured browser hellos of the repository's fixtures + 6 crypto/tls hellos, each under every truncation, every byte x 5 values, every 16-bit field of the extension block x 6 deltas, supported-groups replaced by every list of <=6 (5) over 7 values, each parsed, run through every heuristic and through the MITM handler with 176 User-Agent strings; segmentation: every 1-cut (and a grid of 2-cuts) delivery of each hello record through the real listener/crypto/tls read path, plus connection sequences, and hellos of 2, 5 and 16 KB under a grid of 1-cuts and equal reads of 17 sizes, recorded info compared with the unsplit one; Link headers: every string of length <=5 over 8 symbols through the push middleware; hostile header/cookie/query/path values through 25 placeholders, basicauth and matchers; mutated FastCGI and HTTP backend response streams including records of every content length in {0,1,8,65500,65501,65528,65535} x padding {0,1,7,8,255}; distinct_nontrivial = outcome classes")
 	kit.Init()
 	kit.RegisterProbe()
 	repo := os.Getenv("VERIF_REPO")
@@ -602,6 +681,7 @@ func main() {
 	defer os.RemoveAll(base)
 	seeds := helloPart(rep, repo)
 	segmentation(rep, seeds)
+	largeHellos(rep, seeds)
 	otherParsers(rep, base)
 	os.RemoveAll(base)
 	rep.Finish()
